@@ -175,6 +175,44 @@ def regrow(ctx, st):
     return 2
 
 
+def targeted_search(ctx):
+    """failing-input search used when an obligation or the correspondence has broken: molecules on an inversion centre of strongly oblique
+    triclinic cells with very unequal axes, whose bond across the centre is close to the bonding limit (where an error in the metric decides)"""
+    rng = ctx.rng
+    ev = 0
+    for k in range(300):
+        while True:
+            cell = [round(rng.uniform(5.5, 7.5), 3), round(rng.uniform(15, 19), 3), round(rng.uniform(10, 13), 3),
+                    round(rng.choice([rng.uniform(108, 121), rng.uniform(59, 72)]), 2), round(rng.uniform(80, 100), 2), round(rng.uniform(80, 100), 2)]
+            rng.shuffle(cell[:3])
+            ca, cb, cg = (math.cos(math.radians(x)) for x in cell[3:])
+            if 1 + 2 * ca * cb * cg - ca * ca - cb * cb - cg * cg > 0.3:
+                break
+        M = gs.ortho(cell)
+        Mi = gs.inv3(M)
+        lim = 1.2 * 2 * gs.radius('C')
+        r = rng.uniform(0.8, 0.995) * lim
+        v = [rng.gauss(0, 0.3), rng.gauss(0, 1), rng.gauss(0, 1)]
+        ln = math.sqrt(sum(x * x for x in v))
+        half = gs.mv(Mi, [x / ln * r / 2 for x in v])
+        c1 = [0.5 + half[i] for i in range(3)]
+        w = [rng.gauss(0, 1) for _ in range(3)]
+        lw = math.sqrt(sum(x * x for x in w))
+        o = gs.mv(Mi, [x / lw * 1.35 for x in w])
+        atoms = [{'el': 'C', 'xyz': [round(x, 5) for x in c1], 'part': 0, 'name': 'C1'},
+                 {'el': 'O', 'xyz': [round(c1[i] + o[i], 5) for i in range(3)], 'part': 0, 'name': 'O2'}]
+        st = {'name': 'P-1', 'latt': 1, 'symm': [], 'cell': cell, 'atoms': atoms, 'qpeaks': []}
+        try:
+            ob = sc.observe(st, False)
+        except Exception as ex:
+            common.add_violation(ctx, 'calc_sdm / packer raised on a valid structure', {'name': 'P-1', 'text': gs.to_text(st)}, 'no exception', repr(ex))
+            return ev
+        ev += oracle(ctx, st, ob, False)
+        if any(v['class'] is None for v in ctx.violations):
+            break
+    return ev
+
+
 def run(ctx):
     common.check_obligations(ctx, THEOREMS)
     rng = ctx.rng
@@ -183,7 +221,8 @@ def run(ctx):
     defs, terms, chunk = [], [], []
     ev = 0
     for k in range(nstruct):
-        st = gs.gen_structure(rng)
+        # one structure in six is triclinic (P-1 / P1): the only system in which every term of the metric matters
+        st = gs.gen_structure(rng, name=rng.choice(['P-1', 'P-1', 'P1']) if k % 6 == 5 else None)
         with_q = rng.random() < 0.2
         try:
             ob = sc.observe(st, with_q)
@@ -193,6 +232,9 @@ def run(ctx):
         ev += oracle(ctx, st, ob, with_q)
         if k % 3 == 0:
             ev += regrow(ctx, st)
+        mc = sc.metric_constants_ok(ob)
+        if mc and not any('metric constants' in x for x in ctx.broken):
+            ctx.broken.append('correspondence: metric constants of the SDM object differ from the cell: ' + mc)
         defs.append(sc.coq_defs(ob, k))
         t = sc.coq_checks(ob, k, with_q)
         terms += t[2:]
@@ -219,6 +261,8 @@ def run(ctx):
                     nbad += 1
                     if nbad <= 5:
                         ctx.broken.append('correspondence Model/Sdm.v (float instance) differs from SDM: %s, structure %s' % (what, st['name']))
+    if ctx.broken and not any(v['class'] is None for v in ctx.violations):
+        ev += targeted_search(ctx)
     ctx.cov['evaluations'] = ev
     ctx.cov['distinct_nontrivial'] = ev
     ctx.cov['rule'] = ('random structures as in C13 (clusters on / near inversion centres and axes, PARTs, hydrogens, Q-peaks, with_qpeaks on 20%); '
